@@ -10,6 +10,22 @@ use std::io::Cursor;
 use vharness::json::{esc, ints, obj};
 use vharness::*;
 
+/// independent bitwise CRC-16 (x^16 + x^15 + x^2 + 1, initial value 0, no reflection)
+fn bitwise_crc16(data: &[u8]) -> u16 {
+    let mut c: u16 = 0;
+    for b in data {
+        c ^= (*b as u16) << 8;
+        for _ in 0..8 { c = if c & 0x8000 != 0 { (c << 1) ^ 0x8005 } else { c << 1 }; }
+    }
+    c
+}
+/// number of bytes the crate's structural parser accepts as one frame at `start` (None: it rejects)
+fn accepted_frame_len(file: &[u8], start: usize) -> Option<usize> {
+    let bl = catch(|| flac_codec::metadata::BlockList::read(Cursor::new(file))).ok()?.ok()?;
+    let si = bl.streaminfo().clone();
+    let mut c = Cursor::new(&file[start..]);
+    match catch(|| flac_codec::stream::Frame::read(&mut c, &si)) { Ok(Ok(_)) => Some(c.position() as usize), _ => None }
+}
 fn viol(key: &str, desc: &str, file: &[u8], extra: &[(&str, String)]) {
     let mut f: Vec<(&str, String)> = vec![("t", esc("viol")), ("key", esc(key)), ("desc", esc(desc)), ("file", esc(&hex(file)))];
     f.extend(extra.iter().cloned());
@@ -28,6 +44,7 @@ struct Stats {
     reject_cases: usize,
     md5_cases: usize,
     total_cases: usize,
+    flips_crc_coincidence: usize,
     err_kinds: std::collections::BTreeMap<String, usize>,
 }
 
@@ -92,7 +109,7 @@ fn main() {
     quiet_panics();
     let seed = env_seed();
     let thorough = env_tier_thorough();
-    let mut st = Stats { files: 0, flips: 0, flips_err: 0, flips_panic: 0, flips_silent: 0, truncs: 0, truncs_err: 0, truncs_eof: 0, reject_cases: 0, md5_cases: 0, total_cases: 0, err_kinds: Default::default() };
+    let mut st = Stats { files: 0, flips: 0, flips_err: 0, flips_panic: 0, flips_silent: 0, truncs: 0, truncs_err: 0, truncs_eof: 0, reject_cases: 0, md5_cases: 0, total_cases: 0, flips_crc_coincidence: 0, err_kinds: Default::default() };
 
     // ---- (1) CRC observations
     let mut rng = Rng::new(seed, 0xC2C);
@@ -141,7 +158,28 @@ fn main() {
                     End::Err(_) => {
                         st.flips_err += 1;
                         if !is_frame_prefix(&d.samples, &orig) {
-                            viol("flip-prefix", &format!("after flip at byte {} bit {} the {} delivered samples are not a whole-frame prefix of the original", pos, bit, d.samples.len()), &work, &[("orig", esc(desc))]);
+                            // The damaged frame was accepted.  With the SAME extent that is impossible while the checksums are
+                            // verified (Coq: C05_flipped_frame_rejected); with a DIFFERENT extent the flip changed how many
+                            // bytes the frame occupies and the 16 bits found there can equal the CRC-16 of the new span with
+                            // probability 2^-16: "the altered bytes happen to form another valid" frame, which no decoder of this
+                            // format can tell from a genuine one.  Such a coincidence is counted, not reported, when an
+                            // independent bitwise CRC-16 confirms it; anything else is a violation.
+                            let k = bounds.windows(2).position(|w| pos >= w[0] && pos < w[1]);
+                            let coincidence = k.and_then(|k| {
+                                let start = bounds[k];
+                                let len = accepted_frame_len(&work, start)?;
+                                let end = start + len;
+                                if len == bounds[k + 1] - start || len < 4 || end > work.len() { return None; }
+                                let stored = ((work[end - 2] as u16) << 8) | work[end - 1] as u16;
+                                (bitwise_crc16(&work[start..end - 2]) == stored).then_some((k, len, bounds[k + 1] - start))
+                            });
+                            match coincidence {
+                                Some((k, len, orig_len)) => {
+                                    st.flips_crc_coincidence += 1;
+                                    println!("{}", obj(&[("t", esc("note")), ("msg", esc(&format!("CRC-16 coincidence: flip at byte {} bit {} turns frame {} ({} bytes) into a checksum-valid frame of {} bytes ({})", pos, bit, k, orig_len, len, desc)))]));
+                                }
+                                None => viol("flip-prefix", &format!("after flip at byte {} bit {} the {} delivered samples are not a whole-frame prefix of the original", pos, bit, d.samples.len()), &work, &[("orig", esc(desc))]),
+                            }
                         }
                     }
                 }
@@ -348,7 +386,7 @@ fn main() {
         ("t", esc("stat")), ("files", st.files.to_string()), ("flips", st.flips.to_string()),
         ("flips_err", st.flips_err.to_string()), ("flips_panic", st.flips_panic.to_string()), ("flips_silent", st.flips_silent.to_string()),
         ("truncs", st.truncs.to_string()), ("truncs_err", st.truncs_err.to_string()), ("truncs_eof", st.truncs_eof.to_string()),
-        ("reject_cases", st.reject_cases.to_string()), ("md5_cases", st.md5_cases.to_string()), ("declared_total_cases", st.total_cases.to_string()), ("crc_cases", ncrc.to_string()),
+        ("reject_cases", st.reject_cases.to_string()), ("md5_cases", st.md5_cases.to_string()), ("declared_total_cases", st.total_cases.to_string()), ("flips_crc16_coincidences_different_extent", st.flips_crc_coincidence.to_string()), ("crc_cases", ncrc.to_string()),
         ("flip_outcomes", format!("{{{}}}", kinds.join(","))),
     ]));
 }
